@@ -593,6 +593,13 @@ func (s *Module) AddMPTNodes(nodes [][]byte) error {
 			resErr = errors.New("unexpected empty MPT node")
 			break
 		}
+		// Children are expected by hash only: a node with a child serialized
+		// in place has the same hash, but that child would be neither requested
+		// nor stored.
+		if !bytes.Equal(n.Node.Bytes(), nBytes[:len(nBytes)-r.Len()]) {
+			resErr = errors.New("MPT node is not in its canonical form")
+			break
+		}
 		resErr = s.restoreNode(n.Node)
 		if resErr != nil {
 			break
